@@ -292,6 +292,25 @@ func (e *episode) qualified(ids []int) bool {
 
 func (e *episode) doSig(run *hx.Run, ids []int, msg []byte) string {
 	parts := e.partials(run, ids, msg, true)
+	if e.qualified(ids) {
+		// ThresholdAggregate is a function of its argument: a refused aggregation (one partial is not a
+		// curve point) right before must leave nothing behind that the next one could pick up
+		bad := map[int]tbls.Signature{}
+		for k, v := range parts {
+			bad[k] = v
+		}
+		var junk tbls.Signature
+		for i := range junk {
+			junk[i] = 0xFF
+		}
+		bad[e.n+1] = junk
+		for rep := 0; rep < 3; rep++ {
+			if _, err := tbls.ThresholdAggregate(bad); err == nil {
+				run.Violate("tbls:malformed_partial_accepted", fmt.Sprintf("n=%d t=%d ids=%v plus a partial that is not a curve point: ThresholdAggregate returned no error", e.n, e.t, ids))
+			}
+		}
+		run.Count("sig:after_refused_aggregation")
+	}
 	agg, ver, es := e.aggregate(parts, msg)
 	if es != "" {
 		if e.qualified(ids) {
